@@ -1161,7 +1161,8 @@ def add_level2(res, prop, tier, seed, classes, group, want, b2_reject):
     notes = res.setdefault('notes', [])
     for cls in classes:
         conf = level2.conformance(cls, tier, seed)
-        entry = {'conformance': {k: conf[k] for k in ('ok', 'streams', 'executions', 'events', 'states', 'rejected', 'mo_conflicts')},
+        entry = {'conformance': {k: conf.get(k) for k in ('ok', 'streams', 'executions', 'events', 'states', 'rejected', 'mo_conflicts',
+                                                           'sites_exercised')},
                  'memory_orders_learnt': conf['mo'], 'model_checking': []}
         l2[cls] = entry
         cov['states'] += conf['states']
